@@ -1,44 +1,57 @@
 /* C17 - harnesses of the contract units (one per unit, selected by goto-cc --function). Pointer arguments are left
- * uninitialised and shaped by __CPROVER_is_fresh in the contract's requires; the SENTINEL must be reachable (FAIL). */
+ * uninitialised and shaped by the contract's requires (__CPROVER_is_fresh / __CPROVER_pointer_equals).
+ * Every SENTINEL must be reachable (= FAIL): one per case of the contract, so that no case is verified vacuously. */
+#define SENT(c, txt) do { if (c) __CPROVER_assert(0, "SENTINEL reachable: " txt); } while (0)
 #ifdef CV_HAS_sf_ctor_default
-void h_ctor_default(void)   { SF *p; sf_ctor_default(p); __CPROVER_assert(0, "SENTINEL reachable after shared_future()"); }
+void h_ctor_default(void)   { SF *p; sf_ctor_default(p); SENT(1, "after shared_future()"); }
 #endif
 #ifdef CV_HAS_tr_charge
-void h_charge(void)         { TRACER *t; SPFI *ptr; tr_charge(t, ptr); __CPROVER_assert(0, "SENTINEL reachable after resolve_cb::charge"); }
+void h_charge(void)         { TRACER *t; SPFI *ptr; tr_charge(t, ptr);
+                              SENT(gh_pend0, "charge on a pending future"); SENT(!gh_pend0, "charge on a resolved future"); }
 #endif
 #ifdef CV_HAS_tr_invoke
-void h_tracer_resume(void)  { SPV *ret; AWT *x; cv_i8 *ctx; tr_invoke(ret, x, ctx); __CPROVER_assert(0, "SENTINEL reachable after the tracer's resume function"); }
+void h_tracer_resume(void)  { SPV *ret; AWT *x; cv_i8 *ctx; tr_invoke(ret, x, ctx);
+                              SENT(gh_c0 == 1, "tracer holds the last reference"); SENT(gh_c0 > 1, "handles still alive when the tracer is resumed"); }
 #endif
 #ifdef CV_HAS_sf_dtor
-void h_dtor(void)           { SF *p; sf_dtor(p); __CPROVER_assert(0, "SENTINEL reachable after ~shared_future"); }
+void h_dtor(void)           { SF *p; sf_dtor(p);
+                              SENT(gh_cb0 == 0, "~shared_future of an empty handle"); SENT(gh_cb0 != 0 && gh_pend0, "~shared_future while pending");
+                              SENT(gh_cb0 != 0 && !gh_pend0 && gh_c0 > 1, "~shared_future, resolved, other handles remain");
+                              SENT(gh_cb0 != 0 && gh_c0 == 1, "~shared_future of the last owner"); }
 #endif
 #ifdef CV_HAS_sf_copy_ctor
-void h_copy_ctor(void)      { SF *p, *q; sf_copy_ctor(p, q); __CPROVER_assert(0, "SENTINEL reachable after copy constructor"); }
+void h_copy_ctor(void)      { SF *p, *q; sf_copy_ctor(p, q); SENT(gh_cb0 == 0, "copy of an empty handle"); SENT(gh_cb0 != 0, "copy of a non-empty handle"); }
 #endif
 #ifdef CV_HAS_sf_copy_assign
-void h_copy_assign(void)    { SF *p, *q; sf_copy_assign(p, q); __CPROVER_assert(0, "SENTINEL reachable after copy assignment"); }
+void h_copy_assign(void)    { SF *p, *q; sf_copy_assign(p, q);
+                              SENT(gh_alias, "assignment between two handles of the same state");
+                              SENT(!gh_alias && gh_cb0 == 0 && gh_cb1 == 0, "empty = empty"); SENT(!gh_alias && gh_cb0 == 0 && gh_cb1 != 0, "empty = non-empty");
+                              SENT(!gh_alias && gh_cb0 != 0 && gh_cb1 == 0 && gh_c0 == 1, "last owner = empty"); SENT(!gh_alias && gh_cb0 != 0 && gh_cb1 != 0 && gh_c0 > 1, "non-empty = other state, old state survives");
+                              SENT(!gh_alias && gh_cb0 != 0 && gh_cb1 != 0 && gh_c0 == 1, "last owner = other state"); }
 #endif
 #ifdef CV_HAS_sf_ctor_pfn
-void h_ctor_promise(void)   { SF *p; PFN *fn; sf_ctor_pfn(p, fn); __CPROVER_assert(0, "SENTINEL reachable after shared_future(Fn(promise))"); }
+void h_ctor_promise(void)   { SF *p; PFN *fn; sf_ctor_pfn(p, fn);
+                              SENT(gh_env_choice == 0, "ctor(Fn(promise)), promise kept"); SENT(gh_env_choice == 1, "ctor(Fn(promise)), resolved inside"); SENT(gh_env_choice == 2, "ctor(Fn(promise)), promise dropped inside"); }
 #endif
 #ifdef CV_HAS_sf_ctor_ffn
-void h_ctor_future(void)    { SF *p; FFN *fn; sf_ctor_ffn(p, fn); __CPROVER_assert(0, "SENTINEL reachable after shared_future(Fn()->future)"); }
+void h_ctor_future(void)    { SF *p; FFN *fn; sf_ctor_ffn(p, fn);
+                              SENT(gh_env_choice == 0, "ctor(Fn()->future), pending"); SENT(gh_env_choice == 1, "ctor(Fn()->future), ready with value"); SENT(gh_env_choice == 2, "ctor(Fn()->future), ready without value"); }
 #endif
 #ifdef CV_HAS_sf_init_if_needed
-void h_init_if_needed(void) { SF *p; sf_init_if_needed(p); __CPROVER_assert(0, "SENTINEL reachable after init_if_needed"); }
+void h_init_if_needed(void) { SF *p; sf_init_if_needed(p); SENT(gh_cb0 == 0, "init_if_needed on an empty handle"); SENT(gh_cb0 != 0, "init_if_needed on an initialised handle"); }
 #endif
 #ifdef CV_HAS_sf_get_promise
-void h_get_promise(void)    { PROMISE *r; SF *p; sf_get_promise(r, p); __CPROVER_assert(0, "SENTINEL reachable after get_promise"); }
+void h_get_promise(void)    { PROMISE *r; SF *p; sf_get_promise(r, p); SENT(1, "after get_promise"); }
 #endif
 #ifdef CV_HAS_sf_ready
-void h_ready(void)          { SF *p; sf_ready(p); __CPROVER_assert(0, "SENTINEL reachable after ready"); }
+void h_ready(void)          { SF *p; cv_i1 r = sf_ready(p); SENT(gh_cb0 == 0, "ready() on an empty handle"); SENT(gh_cb0 != 0 && r, "ready() true"); SENT(gh_cb0 != 0 && !r, "ready() false"); }
 #endif
 #ifdef CV_HAS_sf_value
-void h_value(void)          { SF *p; sf_value(p); __CPROVER_assert(0, "SENTINEL reachable after value"); }
+void h_value(void)          { SF *p; sf_value(p); SENT(gh_cb0 == 0, "value() on an empty handle"); SENT(gh_cb0 != 0 && cv_exc_pending == 0, "value() returns the value"); SENT(gh_cb0 != 0 && cv_exc_pending != 0, "value() throws"); }
 #endif
 #ifdef CV_HAS_sf_wait
-void h_wait(void)           { SF *p; sf_wait(p); __CPROVER_assert(0, "SENTINEL reachable after wait"); }
+void h_wait(void)           { SF *p; sf_wait(p); SENT(1, "after wait"); }
 #endif
 #ifdef CV_HAS_sf_co_await
-void h_co_await(void)       { COAW *r; SF *p; sf_co_await(r, p); __CPROVER_assert(0, "SENTINEL reachable after operator co_await"); }
+void h_co_await(void)       { COAW *r; SF *p; sf_co_await(r, p); SENT(1, "after operator co_await"); }
 #endif
